@@ -367,12 +367,12 @@ pub fn run(ctx: &Ctx) -> Report {
         let mut cases: Vec<(usize, usize)> = Vec::new();
         for (t, r) in fam.iter().enumerate() {
             let n = r.count(&b);
-            let stride = if thorough { 1 } else { (n / 150).max(1) };
+            let stride = if thorough { (n / 1500).max(1) } else { (n / 150).max(1) };
             for i in (0..n).step_by(stride) {
                 cases.push((t, i));
             }
         }
-        let sub = Sub::new("mutated-encodings", "every valid encoding of the family's inhabitants with one mutation applied — any node replaced by each of the 16 atoms; list <-> vector; first element dropped or duplicated; improper terminator; alist entry de-paired; symbol <-> string, symbol -> keyword, unknown variant / field name; one list level added or removed — read back as its own type, and for every 8th encoding (thorough: every encoding) as every type of the family: same oracle", &format!("{} encodings", cases.len()));
+        let sub = Sub::new("mutated-encodings", "every valid encoding of the family's inhabitants with one mutation applied — any node replaced by each of the 16 atoms; list <-> vector; first element dropped or duplicated; improper terminator; alist entry de-paired; symbol <-> string, symbol -> keyword, unknown variant / field name; one list level added or removed — read back as its own type, and for every 8th encoding (thorough: every 4th, of ten times as many encodings) as every type of the family: same oracle", &format!("{} encodings", cases.len()));
         let accs = par_ranks(cases.len() as u64, |rank, acc| {
             let (t, i) = cases[rank as usize];
             let e = match fam[t].encoding(&b, i) {
@@ -382,7 +382,7 @@ pub fn run(ctx: &Ctx) -> Report {
             acc.sample(rank, || format!("{}: {}", fam[t].name(), crate::util::trunc(&e.to_string(), 80)));
             for m in mutants(&e) {
                 crate::par::heartbeat();
-                if thorough || rank % 8 == 0 {
+                if rank % (if thorough { 4 } else { 8 }) == 0 {
                     for (t2, r2) in fam.iter().enumerate() {
                         judge(acc, "mutated-encodings", rank, &**r2, &m, &|| json!({"type": t2, "src_type": t, "i": i, "value": m.to_string(), "thorough": thorough}));
                     }
